@@ -63,6 +63,15 @@ def make_data(kind, zone, shape):
         return pd.Series(v, index=idx, name="value")
     if shape == "frame":
         return pd.DataFrame({"value": vals, "temperature": vals * 0.5 + 30}, index=idx)
+    # readings that are not floats: whole units from a billing export / SQL driver (int64, nullable Int64), float32
+    if shape == "series_int":
+        return pd.Series(vals.astype("int64"), index=idx, name="value")
+    if shape == "frame_int":
+        return pd.DataFrame({"value": vals.astype("int64"), "temperature": vals * 0.5 + 30}, index=idx)
+    if shape == "frame_Int64":
+        return pd.DataFrame({"value": pd.array(vals.astype("int64"), dtype="Int64")}, index=idx)
+    if shape == "frame_f32":
+        return pd.DataFrame({"value": vals.astype("float32"), "temperature": (vals * 0.5 + 30).astype("float32")}, index=idx)
     raise ValueError(shape)
 
 
@@ -87,7 +96,7 @@ def cut_instants(idx):
 
 def cases(tier):
     out = []
-    shapes = ["series", "series_nanhead", "frame"]
+    shapes = ["series", "series_nanhead", "frame", "series_int", "frame_int", "frame_Int64", "frame_f32"]
     for kind in SERIES_KINDS:
         for zone in ZONES:
             idx = make_index(kind, zone)
@@ -105,6 +114,8 @@ def cases(tier):
                 cuts = keep
             for shape in shapes:
                 if tier == "quick" and shape != "series" and kind == "hourly10d":
+                    continue
+                if shape in ("series_int", "frame_int", "frame_Int64", "frame_f32") and (kind == "hourly10d" or (tier == "quick" and zone != "America/Chicago")):
                     continue
                 out.append({"fn": "both", "kind": kind, "zone": zone, "shape": shape, "cut": "none", "cut_tz": "same"})
                 for lab, _ in cuts:
@@ -130,7 +141,7 @@ def _fp(obj):
         str(obj.index.tz),
         obj.index.asi8.tobytes(),
         tuple(str(d) for d in obj.dtypes),
-        obj.to_numpy(dtype="float64").tobytes(),
+        obj.astype("float64").to_numpy(dtype="float64").tobytes(),
     )
 
 
@@ -156,8 +167,8 @@ def _check_slice(data, res, viol, key):
     i, j = int(pos[0]), int(pos[-1])
     if type(res) is not type(data) or str(ridx.tz) != str(idx.tz):
         viol.append({"clause": "type_or_tz_changed", "key": key, "detail": f"{type(res).__name__} tz={ridx.tz}"})
-    a = (res.to_frame() if isinstance(res, pd.Series) else res).to_numpy(dtype="float64")
-    b = (data.to_frame() if isinstance(data, pd.Series) else data).to_numpy(dtype="float64")[i : j + 1]
+    a = (res.to_frame() if isinstance(res, pd.Series) else res).astype("float64").to_numpy(dtype="float64")
+    b = (data.to_frame() if isinstance(data, pd.Series) else data).astype("float64").to_numpy(dtype="float64")[i : j + 1]
     if a.shape != b.shape:
         viol.append({"clause": "shape_changed", "key": key, "detail": f"{a.shape} vs {b.shape}"})
         return i, j
